@@ -55,6 +55,8 @@ def _decor(f, plain):
         args.append("version=%r" % f["version"])
     if f.get("deps"):
         args.append("dependencies=[%s]" % ", ".join(f["deps"]))
+    if f.get("no_auto"):
+        args.append("auto_dependencies=False")
     return "@m.memento_function(%s)\n" % ", ".join(args) if args else "@m.memento_function\n"
 
 
@@ -145,6 +147,10 @@ def render_func(f, prog, plain):
     if f.get("raises"):
         out.append("    raise ValueError('boom-%s' % (acc,))")
     out.append("    return acc")
+    if f.get("as_closure"):
+        # a plain helper made by a factory: every such helper of the module has the qualified name _mk.<locals>.helper
+        body = "\n".join(out).replace("def %s(" % f["name"], "def helper(", 1)
+        return "def _mk():\n%s\n    return helper\n\n\n%s = _mk()\n" % ("\n".join("    " + ln for ln in body.split("\n")), f["name"])
     return "\n".join(out) + "\n"
 
 
